@@ -377,13 +377,17 @@ pub fn run(ctx: &Ctx, rep: &mut Report) {
                     let with_data = rng.chance(1, 3);
                     let recipient = if with_data { w.app.clone() } else { users[rng.usize(users.len())].clone() };
                     let custody = w.model.balance(&t.addr, &w.its.clone());
-                    let aclass = *rng.pick(&["one", "custody", "custody+1", "random", "zero", "huge"]);
+                    let aclass = *rng.pick(&["one", "custody", "custody+1", "random", "zero", "huge", "2^64", "2^72", "2^100"]);
                     let amount: i128 = match aclass {
                         "one" => 1,
                         "custody" => custody,
                         "custody+1" => custody + 1,
                         "zero" => 0,
                         "huge" => (1i128 << 120) + rng.below(1000) as i128,
+                        // amounts whose big-endian form has 9 to 15 significant bytes
+                        "2^64" => 1i128 << 64,
+                        "2^72" => (1i128 << 72) + rng.below(1000) as i128,
+                        "2^100" => (1i128 << 100) + rng.below(1000) as i128,
                         _ => 1 + rng.below(2000) as i128,
                     };
                     let trusted_list: Vec<Vec<u8>> = w.model.trusted.iter().cloned().collect();
